@@ -212,11 +212,14 @@ class RecSock(socket.socket):
             self.events.append("W:" + hx(data))
         return len(data)
 
+    consumed = 0
+
     def recv_into(self, buf, *a):
         if not self.script:
             return 0
         c = self.script[0]
         n = min(len(buf), len(c))
+        self.consumed += n
         buf[:n] = c[:n]
         if n == len(c):
             self.script.pop(0)
@@ -1582,9 +1585,12 @@ def client_trace(options_extra, server_chunks, poll, seed_hosts, accept, srcs=No
                 bd.sock.send_script[:] = []
             raise StopLoop()
 
+        at_ok = []
+
         def log(s):
             if "Connected to server" in s:
                 ev.append("OK")
+                at_ok.append(bd.sock.consumed)
         real_connect_fn = bd.ssh.connect
 
         def connect_then_script(*a, **k):
@@ -1632,6 +1638,7 @@ def client_trace(options_extra, server_chunks, poll, seed_hosts, accept, srcs=No
             ssnet.LATENCY_BUFFER_SIZE = old_lbs
             bd.ssh.connect = real_connect_fn
             sys.stdout = so
+        client_trace.consumed_at_ok = at_ok[0] if at_ok else None
         return list(ev), list(bd.sock.rec), list(bd.packaged)
 
 
@@ -1679,6 +1686,18 @@ def part_client(ctx):
                         ctx.violation("client wrote something other than the two uploads before the sync string was verified",
                                       {"trace": [e[:60] for e in ev], "server_deliveries": [hx(c) for c in sc], "poll": poll,
                                        "seed_hosts": None if seed is None else [s[:20] for s in seed], "accept": accept})
+                    # no read-ahead on the ssh socket: when the announcement has been verified the client has taken
+                    # exactly the bytes up to its end from the socket — anything more would sit in a private buffer
+                    # that select() cannot see (the multiplexer would never be woken for it)
+                    stream = b"".join(sc)
+                    i1 = stream.find(b"\0")
+                    i2 = stream.find(b"\0", i1 + 1) if i1 >= 0 else -1
+                    cao = getattr(client_trace, "consumed_at_ok", None)
+                    if "OK" in ev and i2 >= 0 and cao is not None and cao > i2 + 1 + 12:
+                        ctx.violation("the client read ahead of the server's announcement on the ssh socket: bytes that follow it "
+                                      "are held in a buffer select() cannot see",
+                                      {"server_deliveries": [hx(c) for c in sc], "bytes_taken_from_the_socket": cao,
+                                       "end_of_announcement": i2 + 13})
                     alt = [e for e in ev if e.startswith("OPTIONS-ALTERED:")]
                     if alt:
                         ev = [e for e in ev if not e.startswith("OPTIONS-ALTERED:")]
